@@ -142,6 +142,9 @@ def run(prop, tier, seed):
                 it["env"] = envs[(k_ // 4) % len(envs)]
             elif k_ % 4 == 0:
                 it["pyflags"] = PYFLAGS[(k_ // 4) % len(PYFLAGS)]          # interpreter options of the calculator's own process
+            elif k_ % 8 in (1, 3) and "-v" in it["args"] and it["args"][-1] != "" and not it["stdin"]:
+                # started with a standard descriptor closed (only with -v VECTOR: the interpreter's own input() refuses to run without them)
+                it["close"] = "stdout" if (k_ // 8) % 2 == 0 else "stderr"
         ev = record_events(items, work, name="cli", script="cli.py")
         judge(c, prop, ev, work, "cli", module="TraceCli", cfg="TraceCli.cfg", extra_states=0,
               keyfn=lambda e, what: "C17|%s|flags=%s" % (what, ",".join(sorted(a for a in e["args"] if a.startswith("-") and len(a) <= 12 and a not in ("-v", "--vector")))))
